@@ -5,6 +5,11 @@
 From Coq Require Import ZArith List String.
 From Verif Require Import Base.Harness Model.OracleAgg Model.Halt Model.Escrow Model.Ledger
      Proofs.HaltProofs Proofs.EscrowProofs Proofs.OracleAggProofs.
+(* the models of the block-processing code paths share names (step, run, op ...): required, not imported *)
+From Verif Require Model.OracleRound Model.OracleRoundCheck Proofs.OracleRoundProofs Proofs.OracleRoundInv
+     Proofs.OracleRoundDistinct Model.BridgeValset Model.Proposal Proofs.ProposalProofs Model.Mint
+     Model.DisputeTally Proofs.DisputeTallyProofs Model.Slash Model.DisputeSettle Proofs.DisputeSettleProofs
+     Proofs.NoHaltProofs.
 Import ListNotations.
 Open Scope Z_scope.
 
@@ -58,3 +63,254 @@ Print Assumptions C02_return_to_unbonded_refuted.
 Theorem C02_mode_never_fails r rs : weighted_mode_exec (r :: rs) <> None.
 Proof. unfold weighted_mode_exec, weighted_mode. destruct (mode_reporter _ _ _ _) as [[? ?] ?]. discriminate. Qed.
 Print Assumptions C02_mode_never_fails.
+
+(* ================================================================================================== *)
+(*  Block processing never fails, over the executable models of the Begin/End/PreBlock code paths.     *)
+(*  A failing blocker is [None] / an error constructor / an error code of the model; each model is     *)
+(*  tied to the Go code by the correspondence check of the property that owns it.                      *)
+(* ================================================================================================== *)
+
+(* ---- x/oracle EndBlocker (SetAggregatedReport, RotateQueries): Model/OracleRound.v, C07 ----------- *)
+(* in every state satisfying C07's store invariant whose cycle list holds only queries with a registered
+   data spec, the end blocker of any block succeeds *)
+Theorem C02_oracle_end_block_never_fails qinfos s h ts :
+  OracleRoundInv.oinv s -> NoHaltProofs.Oracle.cycle_specd qinfos s ->
+  OracleRound.end_block s h ts (OracleRoundCheck.kind_of qinfos) <> None.
+Proof. exact (NoHaltProofs.Oracle.end_block_never_fails qinfos s h ts). Qed.
+Print Assumptions C02_oracle_end_block_never_fails.
+
+(* over every history of tips, reports, cycle-list updates, data-spec updates and blocks (accepted or
+   rejected), every end-block step succeeds *)
+Theorem C02_oracle_every_end_block_succeeds qinfos ops s :
+  OracleRoundInv.oinv s -> NoHaltProofs.Oracle.cycle_specd qinfos s -> NoHaltProofs.Oracle.blocks_succeed qinfos s ops.
+Proof. exact (NoHaltProofs.Oracle.every_end_block_succeeds qinfos ops s). Qed.
+Print Assumptions C02_oracle_every_end_block_succeeds.
+
+(* C07/C08 state their history theorems "as long as no end blocker fails" ([run_opt]): none does *)
+Theorem C02_oracle_run_never_halts qinfos ops s :
+  OracleRoundInv.oinv s -> NoHaltProofs.Oracle.cycle_specd qinfos s -> OracleRoundDistinct.run_opt qinfos s ops <> None.
+Proof. exact (NoHaltProofs.Oracle.run_opt_never_halts qinfos ops s). Qed.
+Print Assumptions C02_oracle_run_never_halts.
+
+(* from genesis with a non-empty cycle list of spec'd queries *)
+Theorem C02_oracle_from_genesis qinfos cycle sw bw ops :
+  cycle <> [] -> Forall (fun q => NoHaltProofs.Oracle.specd qinfos q = true) cycle ->
+  OracleRoundDistinct.run_opt qinfos (OracleRoundInv.genesis cycle sw bw) ops <> None
+  /\ NoHaltProofs.Oracle.blocks_succeed qinfos (OracleRoundInv.genesis cycle sw bw) ops.
+Proof. exact (NoHaltProofs.Oracle.genesis_run_never_halts qinfos cycle sw bw ops). Qed.
+Print Assumptions C02_oracle_from_genesis.
+
+(* the condition on the cycle list is needed: an entry without data spec stops the end blocker *)
+Theorem C02_oracle_unspecd_cycle_refuted :
+  exists qinfos s h ts, OracleRoundInv.oinv s /\ OracleRound.end_block s h ts (OracleRoundCheck.kind_of qinfos) = None.
+Proof. exact NoHaltProofs.Oracle.unspecd_cycle_refuted. Qed.
+Print Assumptions C02_oracle_unspecd_cycle_refuted.
+
+(* microReports[0] and the division by the total power in AllocateRewards: in every state reached by a
+   history in which reporters need at least 10^6 loya of stake, a round flagged as having reports has a
+   non-empty report list of positive total power ([mk_agg] = the aggregate the end blocker creates, C07) *)
+Theorem C02_oracle_closing_round_inputs qinfos ops s h ts m :
+  NoHaltProofs.Oracle.rinv s -> Forall (fun hop => NoHaltProofs.Oracle.min_stake_ok (snd hop)) ops ->
+  In m (OracleRound.o_queries (OracleRoundInv.run qinfos s ops)) -> OracleRound.m_has_reports m = true ->
+  OracleRound.reports_of (OracleRound.m_id m) (OracleRound.o_reports (OracleRoundInv.run qinfos s ops)) <> []
+  /\ OracleRound.ag_reporters (OracleRoundProofs.mk_agg (OracleRoundInv.run qinfos s ops) h ts m) <> []
+  /\ 1 <= OracleRound.ag_power (OracleRoundProofs.mk_agg (OracleRoundInv.run qinfos s ops) h ts m).
+Proof. exact (NoHaltProofs.Oracle.closing_round_inputs_run qinfos ops s h ts m). Qed.
+Print Assumptions C02_oracle_closing_round_inputs.
+
+Example C02_oracle_example :
+  (OracleRoundInv.oinv NoHaltProofs.Oracle.ex_genesis
+   /\ NoHaltProofs.Oracle.cycle_specd NoHaltProofs.Oracle.ex_qinfos NoHaltProofs.Oracle.ex_genesis
+   /\ NoHaltProofs.Oracle.rinv NoHaltProofs.Oracle.ex_genesis
+   /\ Forall (fun hop => NoHaltProofs.Oracle.min_stake_ok (snd hop)) NoHaltProofs.Oracle.ex_ops)
+  /\ OracleRoundDistinct.run_opt NoHaltProofs.Oracle.ex_qinfos NoHaltProofs.Oracle.ex_genesis NoHaltProofs.Oracle.ex_ops
+     = Some NoHaltProofs.Oracle.ex_state
+  /\ map (fun a => (OracleRound.ag_qid a, OracleRound.ag_reporters a, OracleRound.ag_power a))
+         (OracleRound.o_aggs NoHaltProofs.Oracle.ex_state) = [(2, [11; 12], 12)]
+  /\ OracleRound.o_cycle NoHaltProofs.Oracle.ex_state = [2; 7] /\ OracleRound.o_seq NoHaltProofs.Oracle.ex_state = 1.
+Proof.
+  exact (conj NoHaltProofs.Oracle.ex_hypotheses
+          (match NoHaltProofs.Oracle.ex_nontrivial with conj A (conj B (conj C (conj D _))) => conj A (conj B (conj C D)) end)).
+Qed.
+
+(* ---- x/bridge EndBlock (CompareAndSetBridgeValidators): Model/BridgeValset.v, C16 ------------------ *)
+(* the end blocker fails exactly when, after block 1, no bonded validator with at least one unit of power
+   has a registered EVM address *)
+Theorem C02_bridge_end_block_fails_iff H st r vs height now :
+  fst (BridgeValset.end_block H st r vs height now) = BridgeValset.EbErr
+  <-> height <> 1 /\ BridgeValset.eligible r vs = [].
+Proof. exact (NoHaltProofs.Bridge.end_block_fails_iff H st r vs height now). Qed.
+Print Assumptions C02_bridge_end_block_fails_iff.
+
+(* over every history of blocks (registrations and valset signatures in the PreBlocker, any staking
+   changes): if in every block after the first the registry, after the block's own registrations, serves
+   one of the block's bonded validators, the chain never halts *)
+Theorem C02_bridge_chain_never_halts H es c :
+  BridgeValset.c_halted c = false -> NoHaltProofs.Bridge.served_run H c es ->
+  BridgeValset.c_halted (fold_left (BridgeValset.step H) es c) = false.
+Proof. exact (NoHaltProofs.Bridge.chain_never_halts H es c). Qed.
+Print Assumptions C02_bridge_chain_never_halts.
+
+(* in particular with one registered operator that stays bonded with at least 10^6 loya *)
+Theorem C02_bridge_chain_never_halts_anchor H op a es c :
+  BridgeValset.c_halted c = false -> BridgeValset.reg_get (BridgeValset.c_reg c) op = Some a ->
+  Forall (fun e => BridgeValset.e_height e = 1
+                   \/ exists t, In (BridgeValset.SV op true t) (BridgeValset.e_vals e) /\ BridgeValset.power_reduction <= t) es ->
+  BridgeValset.c_halted (fold_left (BridgeValset.step H) es c) = false.
+Proof. exact (NoHaltProofs.Bridge.chain_never_halts_anchor H op a es c). Qed.
+Print Assumptions C02_bridge_chain_never_halts_anchor.
+
+(* the environment assumption is needed (F07): block 2 with a bonded but unregistered validator halts *)
+Theorem C02_bridge_no_validator_halts_refuted : exists H es, BridgeValset.c_halted (BridgeValset.run H es) = true.
+Proof. exact NoHaltProofs.Bridge.no_validator_halts_refuted. Qed.
+Print Assumptions C02_bridge_no_validator_halts_refuted.
+
+Example C02_bridge_example :
+  NoHaltProofs.Bridge.served_run NoHaltProofs.Bridge.ex_hashes BridgeValset.chain0 NoHaltProofs.Bridge.ex_blocks
+  /\ BridgeValset.c_halted (BridgeValset.run NoHaltProofs.Bridge.ex_hashes NoHaltProofs.Bridge.ex_blocks) = false
+  /\ map BridgeValset.k_set (BridgeValset.c_st (BridgeValset.run NoHaltProofs.Bridge.ex_hashes NoHaltProofs.Bridge.ex_blocks))
+     = [[BridgeValset.BV 88 9; BridgeValset.BV 77 5]; [BridgeValset.BV 77 5]].
+Proof.
+  exact (conj NoHaltProofs.Bridge.ex_served
+          (match NoHaltProofs.Bridge.ex_nontrivial with conj A (conj B _) => conj A B end)).
+Qed.
+
+(* ---- app PreBlocker on the injected vote-extension transaction: Model/Proposal.v, C17 -------------- *)
+(* in every variant, vote extensions enabled or not: on a proposal ProcessProposalHandler accepted the
+   PreBlocker neither panics nor returns an error (a malformed injected tx is rejected before) *)
+Theorem C02_preblock_ok_on_accepted g tbl en st p :
+  Proposal.process g en st p = Proposal.ACCEPT -> exists st', Proposal.pre_block g tbl en st p = Proposal.POk st'.
+Proof. exact (NoHaltProofs.Proposal.preblock_ok_on_accepted g tbl en st p). Qed.
+Print Assumptions C02_preblock_ok_on_accepted.
+
+(* the block of an honest proposer (PrepareProposalHandler on a valid extended commit) *)
+Theorem C02_preblock_ok_on_prepared g tbl st c l :
+  Proposal.c_valid c = true -> Proposal.prepare g true st c = Proposal.PInj l ->
+  exists st', Proposal.pre_block g tbl true st (Proposal.Tx l c) = Proposal.POk st'.
+Proof. exact (NoHaltProofs.Proposal.preblock_ok_on_prepared g tbl st c l). Qed.
+Print Assumptions C02_preblock_ok_on_prepared.
+
+(* acceptance is needed: on an undecodable first transaction the PreBlocker returns an error (and
+   ProcessProposalHandler rejects it) *)
+Theorem C02_preblock_fails_on_rejected_refuted :
+  exists g tbl st p, Proposal.pre_block g tbl true st p = Proposal.PErr /\ Proposal.process g true st p = Proposal.REJECT.
+Proof. exact NoHaltProofs.Proposal.preblock_fails_on_rejected_refuted. Qed.
+Print Assumptions C02_preblock_fails_on_rejected_refuted.
+
+Example C02_preblock_example :
+  exists l st', Proposal.process Proposal.repaired true ProposalProofs.st42 (Proposal.Tx l ProposalProofs.c42) = Proposal.ACCEPT
+    /\ Proposal.pre_block Proposal.repaired [] true ProposalProofs.st42 (Proposal.Tx l ProposalProofs.c42) = Proposal.POk st'
+    /\ Proposal.lookup Z.eqb ProposalProofs.snapS (Proposal.s_atts st') = Some [0x01a0; 0x01b1].
+Proof. exact NoHaltProofs.Proposal.ex_accepted. Qed.
+
+(* ---- x/mint BeginBlocker: Model/Mint.v, C03 ---------------------------------------------------------- *)
+(* any minter: a block not dated before the recorded one, gap inside the int64 range of rate * ms (726 days) *)
+Theorem C02_mint_begin_block_never_fails m now :
+  (forall prev, Mint.m_prev m = Some prev -> prev <= now /\ Mint.in_range (Mint.elapsed_ms now prev) = true) ->
+  NoHaltProofs.Mint.bb_ok (Mint.begin_block true m now).
+Proof. exact (NoHaltProofs.Mint.begin_block_never_fails m now). Qed.
+Print Assumptions C02_mint_begin_block_never_fails.
+
+(* every history of blocks and MsgInit from a minter reachable from genesis *)
+Theorem C02_mint_every_begin_block_succeeds ops m last :
+  Mint.minter_wf m -> (Mint.m_prev m = None \/ Mint.m_prev m = last) -> NoHaltProofs.Mint.times_ok last ops ->
+  NoHaltProofs.Mint.blocks_succeed m ops.
+Proof. exact (NoHaltProofs.Mint.every_begin_block_succeeds ops m last). Qed.
+Print Assumptions C02_mint_every_begin_block_succeeds.
+
+Theorem C02_mint_time_backwards_refuted :
+  exists m now, Mint.minter_wf m /\ Mint.begin_block true m now = Mint.BBErr 0.
+Proof. exact NoHaltProofs.Mint.time_backwards_refuted. Qed.
+Print Assumptions C02_mint_time_backwards_refuted.
+
+Example C02_mint_example :
+  Mint.minter_wf NoHaltProofs.Mint.ex_minter /\ NoHaltProofs.Mint.times_ok None NoHaltProofs.Mint.ex_ops
+  /\ fold_left NoHaltProofs.Mint.mstep NoHaltProofs.Mint.ex_ops NoHaltProofs.Mint.ex_minter
+     = {| Mint.m_init := true; Mint.m_prev := Some (3001000000 + 30 * 86400 * 1000000000) |}.
+Proof.
+  exact (match NoHaltProofs.Mint.ex_hypotheses with conj A B => conj A (conj B (proj2 NoHaltProofs.Mint.ex_nontrivial)) end).
+Qed.
+
+(* ---- x/dispute BeginBlocker, expiry / tally / execution flags: Model/DisputeTally.v, C12 ------------ *)
+(* one block on any world whose dispute records satisfy C12's invariant (after the repair of F03) *)
+Theorem C02_dispute_begin_block_never_fails w dt :
+  DisputeTallyProofs.winv w -> DisputeTally.step true w (DisputeTally.EBlock dt) <> None.
+Proof. exact (NoHaltProofs.Tally.begin_block_never_fails w dt). Qed.
+Print Assumptions C02_dispute_begin_block_never_fails.
+
+(* [run] is [None] exactly when a begin blocker in the history failed: over every history of proposals, fee
+   payments, votes, new rounds and blocks it is not *)
+Theorem C02_dispute_every_begin_block_succeeds es w :
+  DisputeTallyProofs.winv w -> DisputeTally.run true w es <> None.
+Proof. exact (NoHaltProofs.Tally.every_begin_block_succeeds es w). Qed.
+Print Assumptions C02_dispute_every_begin_block_succeeds.
+
+Theorem C02_dispute_life_machine_never_halts es w lin :
+  DisputeTallyProofs.linv w -> DisputeTallyProofs.life_model_run true w lin es <> None.
+Proof. exact (NoHaltProofs.Tally.life_machine_never_halts es w lin). Qed.
+Print Assumptions C02_dispute_life_machine_never_halts.
+
+(* ---- x/dispute BeginBlocker, prevote expiry in C11's dispute world: Model/Slash.v ------------------ *)
+Theorem C02_slash_begin_block_total vr e w now :
+  fst (Slash.step vr e w (Slash.OBegin now)) = true
+  /\ Slash.w_stk (snd (Slash.step vr e w (Slash.OBegin now))) = Slash.w_stk w
+  /\ Slash.w_rcds (snd (Slash.step vr e w (Slash.OBegin now))) = Slash.w_rcds w
+  /\ List.length (Slash.w_disps (snd (Slash.step vr e w (Slash.OBegin now)))) = List.length (Slash.w_disps w).
+Proof. exact (NoHaltProofs.SlashBlock.begin_block_total vr e w now). Qed.
+Print Assumptions C02_slash_begin_block_total.
+
+(* ---- x/dispute BeginBlocker, CheckClosedDisputesForExecution / ExecuteVote: Model/DisputeSettle.v, C13 *)
+(* with fees paid from accounts, one round, the whole slash amount escrowed and tally facts as C12's
+   invariant gives them ([env_ok]): the execution step of the begin blocker succeeds in every state of the
+   invariant ... *)
+Theorem C02_settle_exec_block_never_fails v c s :
+  DisputeSettle.fixc v = true -> NoHaltProofs.Settle.sinv c s ->
+  snd (DisputeSettle.step v c s DisputeSettle.OExecBlock) = DisputeSettle.OK.
+Proof. exact (NoHaltProofs.Settle.exec_block_never_fails v c s). Qed.
+Print Assumptions C02_settle_exec_block_never_fails.
+
+(* ... and over every such history of payments, time, tallies, vote facts, begin blocks, executions, refunds
+   and reward claims every begin-block execution step succeeds *)
+Theorem C02_settle_every_exec_block_succeeds v c ops s :
+  DisputeSettle.fixc v = true -> NoHaltProofs.Settle.sinv c s -> NoHaltProofs.Settle.env_ok v c s ops ->
+  NoHaltProofs.Settle.exec_blocks_succeed v c s ops.
+Proof. exact (fun Hfx => NoHaltProofs.Settle.every_exec_block_succeeds v c Hfx ops s). Qed.
+Print Assumptions C02_settle_every_exec_block_succeeds.
+
+Theorem C02_settle_initial_state c now liq stk :
+  0 < DisputeSettle.c_S c -> NoHaltProofs.Settle.sinv c (DisputeSettle.init_st now liq stk).
+Proof. exact (NoHaltProofs.Settle.init_sinv c now liq stk). Qed.
+Print Assumptions C02_settle_initial_state.
+
+(* without "paid from accounts": 501 one-loya payments from stake are credited but move nothing (C13b); all
+   operations are accepted, the fee is complete, and the begin blocker's ExecuteVote of an AGAINST result
+   fails with insufficient funds (escrow 39499, burn 500, 39000 to send) *)
+Theorem C02_settle_stake_shortfall_halts_refuted :
+  exists c s ops,
+    NoHaltProofs.Settle.all_accepted DisputeSettle.repo_variant c s ops = true
+    /\ DisputeSettle.s_feetotal (DisputeSettle.run DisputeSettle.repo_variant c s ops)
+       = DisputeSettle.s_slash (DisputeSettle.run DisputeSettle.repo_variant c s ops)
+    /\ DisputeSettle.s_esc (DisputeSettle.run DisputeSettle.repo_variant c s ops) = 39499
+    /\ snd (DisputeSettle.step DisputeSettle.repo_variant c (DisputeSettle.run DisputeSettle.repo_variant c s ops)
+              DisputeSettle.OExecBlock) = DisputeSettle.EInsufficient.
+Proof. exact NoHaltProofs.Settle.stake_shortfall_halts_refuted. Qed.
+Print Assumptions C02_settle_stake_shortfall_halts_refuted.
+
+(* without "one round" (F22/F12): in the sixth round the burn amount exceeds twice the slash amount and an
+   AGAINST result makes ExecuteVote ask for a negative amount *)
+Theorem C02_settle_sixth_round_halts_refuted :
+  exists c s ops,
+    NoHaltProofs.Settle.all_accepted DisputeSettle.repo_variant c s ops = true
+    /\ DisputeSettle.s_id (DisputeSettle.run DisputeSettle.repo_variant c s ops) = 6
+    /\ DisputeSettle.s_burn (DisputeSettle.run DisputeSettle.repo_variant c s ops) = 382500
+    /\ snd (DisputeSettle.step DisputeSettle.repo_variant c (DisputeSettle.run DisputeSettle.repo_variant c s ops)
+              DisputeSettle.OExecBlock) = DisputeSettle.EOther.
+Proof. exact NoHaltProofs.Settle.sixth_round_halts_refuted. Qed.
+Print Assumptions C02_settle_sixth_round_halts_refuted.
+
+Example C02_settle_example :
+  (NoHaltProofs.Settle.sinv DisputeSettleProofs.cfg0 DisputeSettleProofs.st0
+   /\ NoHaltProofs.Settle.env_ok DisputeSettle.repo_variant DisputeSettleProofs.cfg0 DisputeSettleProofs.st0 NoHaltProofs.Settle.ex_ops)
+  /\ NoHaltProofs.Settle.codes DisputeSettle.repo_variant DisputeSettleProofs.cfg0 DisputeSettleProofs.st0 NoHaltProofs.Settle.ex_ops
+     = [0; 0; 0; 0; 0; 0; 0; 0; 0; 0].
+Proof. exact (conj NoHaltProofs.Settle.ex_hypotheses (proj1 NoHaltProofs.Settle.ex_nontrivial)). Qed.
